@@ -538,6 +538,11 @@ func runC09(c *Ctx) {
 				syms = rl(200)
 			}
 			im := SymImport{Name: string(rune('A' + j)), Version: 1 + r.Intn(3), Symbols: syms, MaxID: -1}
+			if j > 0 && r.Intn(4) == 0 {
+				// the same shared table may be imported twice: each listing occupies its own slots
+				prev := k.Imports[r.Intn(j)]
+				im.Name, im.Version, im.Symbols = prev.Name, prev.Version, prev.Symbols
+			}
 			switch r.Intn(4) {
 			case 0:
 				im.MaxID = int64(r.Intn(len(syms) + 3))
